@@ -25,7 +25,7 @@ def main():
     res = common.Result(prop, a.tier, a.seed, level=getattr(mod, 'LEVEL', 'model_checking'))
     try:
         common.import_desper()
-        if a.replay and hasattr(mod, 'replay'):
+        if a.replay and callable(getattr(mod, 'replay', None)):     # (a module named replay imported by the property module is not callable)
             mod.replay(res, a.replay)
         elif a.replay:
             import json
